@@ -18,6 +18,7 @@
 //
 //	open ...   -> ok
 //	tx ...     -> ok | err:<abci error type>       (the reference instance's DeliverTx result)
+//	probe ...  -> probed                           (a tx with an arbitrary gas limit that always fails)
 //	commit     -> h=<height> a=<render> b=<render> c=<render> h=<render>   (`-` = not deployed, `e` = empty)
 //	restart    -> ok
 //
@@ -28,6 +29,7 @@
 // query results for the realms' state:
 //
 //	result-diverge    a DeliverTx response differs between two instances
+//	oog-gasused-diverge  only the GasUsed of a transaction that ran out of gas on both differs
 //	endblock-diverge  an EndBlock response differs
 //	apphash-diverge   the app hash after a block differs
 //	state-diverge     a render / storage query differs after a block
@@ -95,6 +97,18 @@ import (
 
 var t avl.Tree
 
+// Box / Item: a method of Box allocates an Item inside the borrowed realm, so the
+// Item is owned by THIS realm even when another realm keeps it (see rh.Grab).
+type Box struct{ n int }
+
+type Item struct{ V int }
+
+var box = &Box{}
+
+func Peek() *Box { return box }
+
+func (b *Box) Make(v int) *Item { return &Item{V: v} }
+
 func key(k int) string { return "k" + strconv.Itoa(k) }
 
 func Set(cur realm, k, v int) { t.Set(key(k), v) }
@@ -138,6 +152,18 @@ const srcRB = `package rb
 import "strconv"
 
 var m = map[string]int{}
+
+// Box / Item: a method of Box allocates an Item inside the borrowed realm, so the
+// Item is owned by THIS realm even when another realm keeps it (see rh.Grab).
+type Box struct{ n int }
+
+type Item struct{ V int }
+
+var box = &Box{}
+
+func Peek() *Box { return box }
+
+func (b *Box) Make(v int) *Item { return &Item{V: v} }
 
 func key(k int) string { return "k" + strconv.Itoa(k) }
 
@@ -248,6 +274,16 @@ import (
 )
 
 var n int
+
+// two objects owned by ra and rb but kept (and persisted) by this realm: rh's
+// finalization then touches two FOREIGN realms
+var ia *ra.Item
+var ib *rb.Item
+
+func Grab(cur realm, k, v int) {
+	ia = ra.Peek().Make(k)
+	ib = rb.Peek().Make(v)
+}
 
 func Both(cur realm, k, v int) {
 	n++
@@ -609,6 +645,12 @@ func (w *world) buildTx(op *opSpec) []byte {
 	if op.lo {
 		gas = gasLo
 	}
+	if op.kind == "probe" {
+		// an arbitrary gas limit, and a last message that fails whatever happens
+		// before it: the transaction never has an effect beyond fee and sequence
+		gas = op.gas
+		msgs = append(msgs, bank.NewMsgSend(from, userKey("u0").PubKey().Address(), std.Coins{{Denom: "foo", Amount: 1}}))
+	}
 	fee := std.Fee{GasWanted: gas, GasFee: std.Coin{Denom: "ugnot", Amount: 1000}}
 	// account number / sequence: read from the reference instance's committed state
 	// at the start of every block, the sequence then tracked inside the block
@@ -674,13 +716,25 @@ func (w *world) deliver(op *opSpec) (string, string) {
 			for f := range d {
 				if d[f] != ref[f] {
 					a, b := diffAt(ref[f], d[f])
-					verdict = fmt.Sprintf("VIOL:result-diverge cfg=%s#%d field=%s ref=%s got=%s", n.spec.text, i, digestField[f], a, b)
+					class := "result-diverge"
+					if f == 3 && errClass(r.Error) == "err:OutOfGasError" && errClass(refRes.Error) == "err:OutOfGasError" {
+						// same error, data and events; only the gas number reported for
+						// an out-of-gas transaction differs
+						class = "oog-gasused-diverge"
+					}
+					verdict = fmt.Sprintf("VIOL:%s cfg=%s#%d field=%s ref=%s got=%s", class, n.spec.text, i, digestField[f], a, b)
 					break
 				}
 			}
 		}
 	}
 	w.inBlock, w.boundary = true, false
+	if op.kind == "probe" {
+		// gas >= 10^6 always carries a probe through the ante handler (for an existing
+		// account), so its sequence is consumed whatever fails later
+		w.seq[op.who]++
+		return "probed", verdict
+	}
 	if refRes.Error == nil || strings.HasPrefix(refRes.Log, "msg:") || strings.HasPrefix(refRes.Log, "recovered:") {
 		w.seq[op.who]++ // the ante handler passed: the sequence was consumed even if a message failed
 	}
@@ -821,7 +875,7 @@ func exec(toks []string) (a, b string) {
 		return "ok", verdict
 	case "commit":
 		return W.commit()
-	case "tx":
+	case "tx", "probe":
 		return W.deliver(op)
 	}
 	return "err:badop", "-"
